@@ -272,6 +272,10 @@ func evalPathStep(step jparse.Node, data reflect.Value, env *environment, lastSt
 func evalOverArray(node jparse.Node, data reflect.Value, env *environment) ([]reflect.Value, error) {
 	var results []reflect.Value
 
+	// The array may be wrapped in an interface (e.g. when it
+	// is an item of another array).
+	data = jtypes.Resolve(data)
+
 	for i, N := 0, data.Len(); i < N; i++ {
 
 		res, err := eval(node, data.Index(i), env)
